@@ -95,6 +95,7 @@ func editIn(cx *cbCtx, r *json.Object, p *presence.Presence, s prog.Step) (desc 
 			desc = fmt.Sprintf("a.del %d", s.A%n)
 		case s.Op == "aset":
 			a.SetInteger(s.A%n, v)
+			cx.aset = true
 			desc = fmt.Sprintf("a.set %d %d", s.A%n, v)
 		case n < 2:
 			a.AddInteger(v)
